@@ -308,9 +308,34 @@ def r5_clock(text, clk="clk"):
 
 
 def r10_map_unwrap_or(text, count=None):
-    """E.map(|p| B).unwrap_or(D)  ->  match E { Some(p) => B, None => D }   (E: a dotted path)"""
-    pat = r"((?:[A-Za-z_]\w*)(?:\s*\.\s*[A-Za-z_]\w*)*)\s*\.\s*map\(\s*\|\s*(\w+)\s*\|\s*([^()]*?)\)\s*\.\s*unwrap_or\(([^()]*)\)"
-    return sub(text, pat, "match \\1 { Some(\\2) => \\3, None => \\4 }", count=count, name="R10")
+    """E.map(|p| B).unwrap_or(D)  ->  (match E { Some(p) => B, None => D })   for any postfix-chain receiver E; B and D are balanced
+    argument texts (B without nested closures)."""
+    k = 0
+    pos = 0
+    while True:
+        m = mask(text)
+        mm = re.compile(r"\.\s*map\(\s*\|\s*(\w+)\s*\|").search(m, pos)
+        if not mm:
+            break
+        op1 = m.index("(", mm.start())
+        cp1 = match_close(m, op1)
+        m2 = re.match(r"\s*\.\s*unwrap_or\(", m[cp1 + 1:])
+        body = text[mm.end():cp1].strip()
+        if not m2 or "|" in mask(body).replace("||", ""):
+            pos = mm.end()
+            continue
+        op2 = cp1 + 1 + m2.end() - 1
+        cp2 = match_close(m, op2)
+        dflt = text[op2 + 1:cp2].strip()
+        s0 = _receiver_start(m, mm.start())
+        recv = text[s0:mm.start()]
+        rep = "(match %s { Some(%s) => %s, None => %s })" % (recv, mm.group(1), body, dflt)
+        text = text[:s0] + rep + text[cp2 + 1:]
+        pos = s0 + len(rep)
+        k += 1
+    if (count is None and k == 0) or (count is not None and count >= 0 and k != count):
+        raise Undecided("R10: %d map(..).unwrap_or(..) sites, expected %s" % (k, count))
+    return text, k
 
 
 def _receiver_start(m, dot):
